@@ -192,7 +192,9 @@ func (i *Int) One() kyber.Scalar {
 // The modulus must already be initialized.
 func (i *Int) SetInt64(v int64) kyber.Scalar {
 	if v < 0 {
-		panic("negative value")
+		// -|v| mod M; uint64(-v) is |v| for every int64, math.MinInt64 included
+		i.V = *compatible.NewInt(0).Mod(compatible.NewUint(uint64(-v)), i.M)
+		return i.Neg(i)
 	}
 	i.V = *compatible.NewInt(0).Mod(compatible.NewInt(v), i.M)
 
